@@ -8,6 +8,8 @@
 mod exact;
 #[path = "../../harness/src/hist.rs"]
 mod hist;
+#[path = "../../harness/src/rechist.rs"]
+mod rechist;
 #[path = "../../harness/src/report.rs"]
 mod report;
 
@@ -149,10 +151,40 @@ fn main() {
     std::panic::set_hook(Box::new(|_| {}));
     let args: Vec<String> = std::env::args().collect();
     let get = |k: &str| args.iter().position(|a| a == k).map(|i| args[i + 1].clone());
-    let input = get("--input").expect("--input");
-    let prop = get("--prop").expect("--prop");
     let out = get("--out");
     let t0 = std::time::Instant::now();
+    if let Some(trace) = get("--record") {
+        // implementation -> specification: the histogram trace recorder of the stable harness on
+        // histogram_const::Histogram<LEN>; Trace_Histogram.tla validates the result
+        use rand::SeedableRng;
+        let len: usize = get("--len").and_then(|s| s.parse().ok()).unwrap_or(10);
+        let n: usize = get("--n").and_then(|s| s.parse().ok()).unwrap_or(1000);
+        let seed: u64 = get("--seed").and_then(|s| s.parse().ok()).unwrap_or(1);
+        let mut rng = rand_xoshiro::Xoshiro256PlusPlus::seed_from_u64(seed ^ (len as u64) << 32 ^ 0x636f6e7374);
+        let mut w = std::io::BufWriter::new(std::fs::File::create(&trace).expect("trace file"));
+        let mut rep = Report::default();
+        let runs = 8;
+        for _ in 0..runs {
+            rep.behaviours += 1;
+            match len {
+                2 => rechist::record_hist_typed::<Histogram<2>>(&mut w, &mut rng, n / runs, &mut rep),
+                3 => rechist::record_hist_typed::<Histogram<3>>(&mut w, &mut rng, n / runs, &mut rep),
+                10 => rechist::record_hist_typed::<Histogram<10>>(&mut w, &mut rng, n / runs, &mut rep),
+                100 => rechist::record_hist_typed::<Histogram<100>>(&mut w, &mut rng, n / runs, &mut rep),
+                _ => panic!("no recorder for LEN {len}"),
+            }
+        }
+        use std::io::Write;
+        w.flush().unwrap();
+        rep.counters.insert("traces".into(), rep.behaviours);
+        let mut j = rep.to_json();
+        j["traces"] = serde_json::json!(rep.behaviours);
+        j["wall_s"] = serde_json::json!(t0.elapsed().as_secs_f64());
+        std::fs::write(out.expect("--out"), serde_json::to_string_pretty(&j).unwrap()).unwrap();
+        return;
+    }
+    let input = get("--input").expect("--input");
+    let prop = get("--prop").expect("--prop");
     let f = std::fs::File::open(&input).expect("input");
     let want = HWant { prop };
     // bounded batches: thorough-tier generator outputs are large
